@@ -8,7 +8,10 @@
 // O: probes with the real binary in the crashed HOME: (1) `octosql "SELECT 1"` exits 0; (2) for
 // every database in octosql.yml `SELECT * FROM <db>.version` succeeds and reports a version that
 // was fully installed before, or the new one; (3) a file with a plugin-registered extension is
-// still readable through the registered handler; (4) `plugins.repositories` still answers.
+// still readable through the registered handler; (4) `plugins.repositories` still answers; (5) the
+// interrupted command can be re-run without fault: it exits 0 and afterwards (1)-(4) hold with
+// every database on a fully installed version (a retry is a "later octosql invocation", and the
+// only way a half-installed state gets repaired).
 // W: the octosql binary built with -tags verif (crash hooks), a loopback HTTP server playing
 // repository + manifest + download host for the real test plugin binary; start states x actions;
 // a traced run lists the hook points, then EVERY (point, hit) is crashed once and every torn
@@ -333,7 +336,7 @@ func Run(c *core.Ctx) core.FinishOpts {
 		Level: "fault_enumeration",
 		Rule: "faults = every (hook point, hit index) reached by a traced run of each scenario, crashed once, plus torn writes of every file written at a BeforeWrite/AfterWrite point at prefix lengths {0,1,half,len-1} " +
 			"(thorough: every prefix of the small registry files, 16 bytes at each end + 64 evenly spaced + block boundaries of the archive and the extracted binary); scenarios = start state (nothing / v1 installed+configured / v1+v2) x action " +
-			"(install new version, reinstall same version, install a second plugin claiming a registered extension, repository add); after every fault (and every completed run) additionally: all version directories installed before and not being (re)installed are byte-identical; non-trivial = the fault was injected (exit 137) and the probes ran; distinct by scenario+fault",
+			"(install new version, reinstall same version, install a second plugin claiming a registered extension, repository add); after every fault the probes P1-P4 run in the crashed HOME, then P5: the same command is re-run without fault, must exit 0 and leave P1-P4 holding (a retry is a later invocation in the sense of the property and the only repair of a half-installed state); after every fault (and every completed run) additionally: all version directories installed before and not being (re)installed are byte-identical; non-trivial = the fault was injected (exit 137) and the probes ran; distinct by scenario+fault",
 		Floor:      c.Pick(80, 600),
 		Exhaustive: true,
 		Assumptions: []string{
@@ -490,6 +493,8 @@ func Run(c *core.Ctx) core.FinishOpts {
 		}
 		c.Count("scenario/"+sc.name, 1)
 		c.Count("invariant/previous_versions_compared", 1)
+		// P5 runs last (after P1-P4 have judged the crashed state itself), before home is removed
+		defer h.retryProbe(jobs[i].sc, f, id, home)
 		if len(damage) > 0 {
 			c.Violation("previous-version-damaged:"+f.Point, fmt.Sprintf("scenario %s (%s), crash at %s: versions installed before the action and not being (re)installed were changed: %v", sc.name, strings.Join(sc.args, " "), f.Spec, damage),
 				map[string]interface{}{"id": id, "scenario": sc.name, "start_state": sc.start, "command": sc.args, "crash_at": f.Spec, "damage": damage, "failed_probes": fails, "home_listing": listing(home)})
